@@ -8,6 +8,7 @@ import (
 	"math/rand"
 	"os"
 	"path/filepath"
+	"runtime"
 	"runtime/debug"
 	"sort"
 	"strings"
@@ -172,6 +173,14 @@ func runOnce(t *testing.T, prop string, tier string, seed int64, rep *ReplayFile
 	}
 	defer os.RemoveAll(base)
 
+	// no garbage collection while a run is in progress (GC workers perturb the
+	// order in which runnable goroutines are picked); collect between runs
+	oldGC := debug.SetGCPercent(-1)
+	debug.SetMemoryLimit(6 << 30)
+	defer func() {
+		debug.SetGCPercent(oldGC)
+		runtime.GC()
+	}()
 	var w *World
 	body := func() {
 		var ch *chooser
